@@ -405,6 +405,8 @@ func reportPlumbing(c *run.Ctx, s *kit.Summary, r *kit.Rng) {
 		file  string
 		jsonO string
 		histO string
+		newO  string
+		every int64
 	}
 	var jobs []job
 	var ops []string
@@ -432,7 +434,17 @@ func reportPlumbing(c *run.Ctx, s *kit.Summary, r *kit.Rng) {
 		enc := vegeta.NewEncoder(f)
 		t0 := time.Unix(1600000000, 0)
 		errs := []string{"", "", "boom", "boom", "other failure", "timeout"}
-		for k, l := range hc.Lats {
+		// a third of the jobs report periodically (-every): intermediate reports (Close, then further Add calls)
+		// are appended to the output file; the LAST report must still be the partition of all results.
+		// Those jobs get a few thousand results so that ticks do fire while decoding.
+		lats := hc.Lats
+		if len(lats) > 0 && r.Chance(0.34) {
+			j.every = int64(1 + r.Pick(2000))
+			for len(lats) < 4000 {
+				lats = append(lats, hc.Lats...)
+			}
+		}
+		for k, l := range lats {
 			if l < 0 {
 				l = 0
 			}
@@ -446,10 +458,11 @@ func reportPlumbing(c *run.Ctx, s *kit.Summary, r *kit.Rng) {
 				Latency: time.Duration(l), Error: e, Method: "GET", URL: "http://x/"})
 		}
 		f.Close()
-		j.jsonO, j.histO = j.file+".json", j.file+".hist"
+		j.jsonO, j.histO, j.newO = j.file+".json", j.file+".hist", j.file+".hist2"
 		ops = append(ops,
-			fmt.Sprintf("report %s 0 %s %s %s", kit.HexS("json"), kit.HexS(spec), kit.HexS(j.jsonO), kit.HexS(j.file)),
-			fmt.Sprintf("report %s 0 - %s %s", kit.HexS("hist"+spec), kit.HexS(j.histO), kit.HexS(j.file)))
+			fmt.Sprintf("report %s %d %s %s %s", kit.HexS("json"), j.every, kit.HexS(spec), kit.HexS(j.jsonO), kit.HexS(j.file)),
+			fmt.Sprintf("report %s %d - %s %s", kit.HexS("hist"+spec), j.every, kit.HexS(j.histO), kit.HexS(j.file)),
+			fmt.Sprintf("report %s %d %s %s %s", kit.HexS("hist"), j.every, kit.HexS(spec), kit.HexS(j.newO), kit.HexS(j.file)))
 		jobs = append(jobs, j)
 	}
 	outs, err := kit.RunVegeta(c.Vegeta, ops)
@@ -468,10 +481,11 @@ func reportPlumbing(c *run.Ctx, s *kit.Summary, r *kit.Rng) {
 				}
 			}
 		}
-		in := map[string]interface{}{"buckets_spec": j.spec, "latencies": j.lats}
-		if outs[2*i] != "ok" || outs[2*i+1] != "ok" {
+		in := map[string]interface{}{"buckets_spec": j.spec, "latencies": j.lats, "every_ns": j.every}
+		s.Count(fmt.Sprintf("report:every=%v", j.every > 0))
+		if outs[3*i] != "ok" || outs[3*i+1] != "ok" || outs[3*i+2] != "ok" {
 			if len(j.lats) > 0 { // an empty result file has no detectable encoding: not in the quantifier
-				s.Violate(kit.Violation{Kind: "report_buckets_failed", What: "report command failed on a valid bucket specification", Input: in, Observed: outs[2*i] + " / " + outs[2*i+1]})
+				s.Violate(kit.Violation{Kind: "report_buckets_failed", What: "report command failed on a valid bucket specification", Input: in, Observed: outs[3*i] + " / " + outs[3*i+1] + " / " + outs[3*i+2]})
 			}
 			continue
 		}
@@ -481,6 +495,10 @@ func reportPlumbing(c *run.Ctx, s *kit.Summary, r *kit.Rng) {
 			Requests uint64            `json:"requests"`
 		}
 		b, _ := os.ReadFile(j.jsonO)
+		if docs := strings.Split(strings.TrimSpace(string(b)), "\n"); len(docs) > 1 {
+			s.Count("report:intermediate_json_reports>0")
+			b = []byte(docs[len(docs)-1]) // one JSON document per report, one per line: the last one is the final report
+		}
 		if err := json.Unmarshal(b, &m); err != nil {
 			s.Violate(kit.Violation{Kind: "report_json_unparsable", What: "JSON report is not valid JSON", Input: in, Observed: string(b)})
 			continue
@@ -498,18 +516,25 @@ func reportPlumbing(c *run.Ctx, s *kit.Summary, r *kit.Rng) {
 			s.Violate(kit.Violation{Kind: "report_json_buckets", What: "bucket counts in the JSON report (-type=json -buckets) are not the partition of the results",
 				Input: in, Expected: fmt.Sprint(ref), Observed: fmt.Sprint(m.Buckets)})
 		}
-		hb, _ := os.ReadFile(j.histO)
-		_, rows := parseHistText(hb)
-		okT := len(rows) == len(j.bs)
-		for k := 0; okT && k < len(rows); k++ {
-			if rows[k][2] != strconv.FormatUint(ref[k], 10) || rows[k][0] != time.Duration(j.bs[k]).String() {
-				okT = false
+		for which, fn := range []string{j.histO, j.newO} {
+			hb, _ := os.ReadFile(fn)
+			if k := strings.LastIndex(string(hb), "Bucket"); k > 0 {
+				s.Count("report:intermediate_hist_reports>0")
+				hb = hb[k:] // the last table is the final report
+			}
+			_, rows := parseHistText(hb)
+			okT := len(rows) == len(j.bs)
+			for k := 0; okT && k < len(rows); k++ {
+				if rows[k][2] != strconv.FormatUint(ref[k], 10) || rows[k][0] != time.Duration(j.bs[k]).String() {
+					okT = false
+				}
+			}
+			if !okT {
+				s.Violate(kit.Violation{Kind: "report_hist_buckets", What: "rows of the text histogram report (" + []string{"-type=hist[…]", "-type=hist -buckets=…"}[which] + ") are not the partition of the results",
+					Input: in, Expected: fmt.Sprint(ref), Observed: string(hb)})
 			}
 		}
-		if !okT {
-			s.Violate(kit.Violation{Kind: "report_hist_buckets", What: "rows of the text histogram report (-type=hist[…]) are not the partition of the results",
-				Input: in, Expected: fmt.Sprint(ref), Observed: string(hb)})
-		}
+		os.Remove(j.newO)
 		os.Remove(j.file)
 		os.Remove(j.jsonO)
 		os.Remove(j.histO)
